@@ -3,6 +3,7 @@
 package vh
 
 import (
+	"crypto/sha256"
 	"encoding/hex"
 	"encoding/json"
 	"flag"
@@ -23,6 +24,7 @@ type Case struct {
 	ID     int         `json:"id"`
 	Class  string      `json:"class"`  // generator class, for the input distribution
 	Coq    string      `json:"-"`      // Coq term
+	Hash   string      `json:"hash"`   // of the Coq term: distinctness of cases
 	Sample interface{} `json:"sample"` // human-readable form (evidence samples, replay files)
 }
 
@@ -102,7 +104,8 @@ func (r *Run) Scale(q, t int) int {
 func (r *Run) Add(class, coq string, sample interface{}) int {
 	id := r.nextID
 	r.nextID++
-	r.Cases = append(r.Cases, Case{ID: id, Class: class, Coq: coq, Sample: sample})
+	h := sha256.Sum256([]byte(coq))
+	r.Cases = append(r.Cases, Case{ID: id, Class: class, Coq: coq, Hash: hex.EncodeToString(h[:8]), Sample: sample})
 	return id
 }
 
